@@ -603,6 +603,21 @@ def decode_varint(buffer: bytes, pos: int) -> Tuple[int, int]:
     return value, pos + len(raw)
 
 
+def _wire_type_fits(proto_type: str, repeated: bool, wire_type: int) -> bool:
+    """Whether a field of the given declared type may arrive with this wire type."""
+    if wire_type == WIRE_LEN_DELIM:
+        return proto_type in WIRE_LEN_DELIM_TYPES or (
+            repeated and proto_type in PACKED_TYPES
+        )
+    if wire_type == WIRE_VARINT:
+        return proto_type in WIRE_VARINT_TYPES
+    if wire_type == WIRE_FIXED_32:
+        return proto_type in WIRE_FIXED_32_TYPES
+    if wire_type == WIRE_FIXED_64:
+        return proto_type in WIRE_FIXED_64_TYPES
+    return False
+
+
 @dataclasses.dataclass(frozen=True)
 class ParsedField:
     number: int
@@ -1348,7 +1363,17 @@ class Message(ABC):
         proto_meta = self._betterproto
         read = 0
         for parsed in load_fields(stream):
+            if parsed.wire_type == WIRE_END_GROUP:
+                raise ValueError("Unexpected end-group tag.")
             field_name = proto_meta.field_name_by_number.get(parsed.number)
+            if field_name and not _wire_type_fits(
+                proto_meta.meta_by_field_name[field_name].proto_type,
+                proto_meta.default_gen[field_name] is list,
+                parsed.wire_type,
+            ):
+                # The sender uses another type for this field number (or a group):
+                # it cannot be decoded as the declared type, keep it as unknown.
+                field_name = None
             if not field_name:
                 self._unknown_fields += parsed.raw
                 # Unknown fields count towards the announced size as well
